@@ -1286,6 +1286,34 @@ fn read_with<S: rustic_core::IndexedFull>(repo: &Repository<S>, snaps: &[Snapsho
     Ok(out)
 }
 
+/// Every file of every snapshot dumped ONE BY ONE through an already indexed repository: a file (or tree) that cannot be read is
+/// skipped, a file that does read must have exactly its original content.  Returns the path of the first file that read
+/// successfully with OTHER content.  (`read_everything` gives up at the first failing blob — with a damaged pack that hides the
+/// files that still "read".)
+fn file_with_other_content<S: rustic_core::IndexedFull>(repo: &Repository<S>, snaps: &[SnapshotFile], original: &[Vec<repo::ReadBack>]) -> Option<String> {
+    use std::os::unix::ffi::OsStrExt;
+    for (snap, orig) in snaps.iter().zip(original) {
+        let want: std::collections::BTreeMap<&[u8], &Vec<u8>> =
+            orig.iter().filter_map(|e| e.content.as_ref().map(|c| (e.path.as_slice(), c))).collect();
+        let mut root = rustic_core::repofile::Node::new_node(std::ffi::OsStr::new(""), rustic_core::repofile::NodeType::Dir, rustic_core::repofile::Metadata::default());
+        root.subtree = Some(snap.tree);
+        let Ok(it) = repo.ls(&root, &rustic_core::LsOptions::default()) else { continue };
+        for item in it {
+            let Ok((path, node)) = item else { break };
+            if node.is_file() {
+                let mut buf = Vec::new();
+                if repo.dump(&node, &mut buf).is_ok() {
+                    let p = path.as_os_str().as_bytes();
+                    if want.get(p).is_none_or(|w| **w != buf) {
+                        return Some(String::from_utf8_lossy(p).to_string());
+                    }
+                }
+            }
+        }
+    }
+    None
+}
+
 /// `tamper front <seed>`: pack files EXTENDED AT THE FRONT.  The pack header sits at the END of the file and lists blob LENGTHS
 /// only (offsets are implied: back to back from 0), so a front-extended pack still ends in an intact, authenticated header — what
 /// ties that header to the file is the size comparison in `PackHeader::from_file` (model: `Pack.fromFile`, theorems
@@ -1434,6 +1462,11 @@ fn exec_tamper_front(seed: u64) -> String {
                             return Err(format!("oracle-fail:front-extended-pack-changed-content:{name}"));
                         }
                     }
+                    if let Ok(repo) = h.open_nocache().and_then(|r| r.to_indexed()) {
+                        if file_with_other_content(&repo, &snaps, &original).is_some() {
+                            return Err(format!("oracle-fail:front-extended-pack-changed-content:{name}"));
+                        }
+                    }
                 }
                 // check reports it
                 if repo::check_errors_nocache(&h, false) == Some(0) {
@@ -1446,6 +1479,9 @@ fn exec_tamper_front(seed: u64) -> String {
                             return Err(format!("oracle-fail:front-extended-pack-changed-content-after-checked-index:{name}"));
                         }
                     }
+                    if file_with_other_content(&repo, &snaps, &original).is_some() {
+                        return Err(format!("oracle-fail:front-extended-pack-changed-content-after-checked-index:{name}"));
+                    }
                     return Err(format!("oracle-fail:front-extended-pack-accepted-by-checked-index:{name}"));
                 }
                 // header re-read by `repair index`, on a copy of the store
@@ -1456,6 +1492,11 @@ fn exec_tamper_front(seed: u64) -> String {
                     .map_err(|e| format!("{}@repair-index", errkind(&e)))?;
                 if let Ok(got) = read_everything(&h2, &snaps) {
                     if got != original {
+                        return Err(format!("oracle-fail:front-extended-pack-changed-content-after-repair-index:{name}"));
+                    }
+                }
+                if let Ok(repo) = h2.open_nocache().and_then(|r| r.to_indexed()) {
+                    if file_with_other_content(&repo, &snaps, &original).is_some() {
                         return Err(format!("oracle-fail:front-extended-pack-changed-content-after-repair-index:{name}"));
                     }
                 }
